@@ -101,6 +101,17 @@ def cases(ctx):
                     if ctx.mine(k):
                         yield {"kind": "keep", "variant": var, "bells": bells, "hardware": hw, "others": 1, "holes": holes,
                                "expect_phi_plus": True}
+    # several requests on ONE connection (the earlier pairs are measured away in between): a refused request, or registers taken
+    # by the application, in between - every request is corrected on its own terms
+    for hw, n in (("nv", 1), ("nv", 2), ("generic", 1), ("nvc", 2)):
+        for between in ("nothing", "registers", "refused", "refused+registers"):
+            for var in ("recv_keep", "recv_keep_with_info"):
+                rounds = [[rng.randrange(4) for _ in range(n)] for _ in range(3)]
+                rounds[1] = [b or 2 for b in rounds[1]]       # (the later rounds always need a correction)
+                rounds[2] = [b or 1 for b in rounds[2]]
+                k += 1
+                if ctx.mine(k):
+                    yield {"kind": "keep-history", "variant": var, "hardware": hw, "rounds": rounds, "between": between}
     for basis in ("X", "Y", "Z", "MX", "MY", "MZ"):
         for b in range(4):
             for role in ("recv", "create"):
@@ -113,7 +124,56 @@ def cases(ctx):
                         yield {"kind": "measure", "basis": basis, "bell": b, "role": role, "told_bases": False}
 
 
+def _keep_history(ctx, case):
+    from netqasm.sdk.epr_socket import EPRSocket
+    var, hw, rounds, between = case["variant"], case["hardware"], case["rounds"], case["between"]
+    n = len(rounds[0])
+    es = EPRSocket("bob")
+    reqs = [PlannedRequest("recv", "K", n, bells=b) for b in rounds]
+    pipe = Pipe(epr_sockets=[es], link=LinkModel(reqs), max_qubits=n + 1, hardware="generic" if hw == "nvc" else hw,
+                transpile=True if hw == "nvc" else None)
+    ex = pipe.ex
+    try:
+        with pipe.conn as conn:
+            for r, (bells, req) in enumerate(zip(rounds, reqs)):
+                if r and "refused" in between:
+                    # a request the SDK refuses (more pairs than the node has qubits), made with the expectation switched off
+                    try:
+                        es.recv_keep(n + 4, expect_phi_plus=False)
+                        ctx.count("history_oversized_request_accepted")
+                        return ctx.case(case, False)
+                    except Exception:
+                        ctx.count("history_requests_refused")
+                if r and "registers" in between:
+                    for _ in range(r + 1):
+                        conn.builder.new_register(init_value=_ + 1)       # the application holds some registers of its own by now (values 1, 2, ..)
+                qubits = (es.recv_keep(n) if var == "recv_keep" else es.recv_keep_with_info(n)[0])
+                conn.flush()
+                bad = []
+                for i, q in enumerate(qubits):
+                    ctx.count("kept_pairs_checked")
+                    try:
+                        st = ex.sv.pair_state(pipe.label_of(q), req.partners[i])
+                    except Exception:
+                        st = None
+                    if st is None or rq.fidelity(st, rq.BELL[0]) < 1 - 1e-9:
+                        bad.append(i)
+                if bad:
+                    ctx.fail(case, f"{var} x{n} hw={hw}, request {r} on one connection (between requests: {between}; Bell states {bells}): "
+                                   f"pairs {bad} are not Phi+ with their partner")
+                    return ctx.case(case, True)
+                for q in qubits:
+                    q.measure()
+                conn.flush()
+            ctx.count("multi_request_histories")
+    except (hc.ControllerFault, hc.Deadlock, hc.StepLimit) as e:
+        ctx.fail(case, f"{var} x{n} hw={hw}, several requests on one connection (between: {between}): controller run failed: {str(e)[:200]}")
+    ctx.case(case, True)
+
+
 def run_case(ctx, case):
+    if case["kind"] == "keep-history":
+        return _keep_history(ctx, case)
     if case["kind"] == "keep":
         _keep(ctx, case)
     else:
